@@ -127,15 +127,15 @@ def into_configs(tier):
     A, F, O4, O2 = IO_ALL, IO_FEW, OPS_ALL, OPS_TWO
     # atoms: EVERY pair (previous index set / size / flag / weights, source) of the family
     c = [("unit", 0, 3, 1, 1, 1, 2, O4, A), ("unit", 0, 2, 2, 1, 2, 2, O4, A), ("unit", 0, 2, 2, 1, 1, 2, O4, A), ("unit", 0, 2, 3, 1, 1, 2, O4, A),
-         ("slip", 0, 3, 2, 1, 1, 2, O4, A), ("slip", 0, 2, 3, 1, 2, 2, O4, A),
+         ("slip", 0, 2, 2, 1, 1, 2, O4, A), ("slip", 0, 2, 3, 1, 2, 2, O4, A),
          ("mean", 0, 3, 1, 1, 2, 2, O4, A), ("mean", 0, 2, 2, 1, 1, 2, O4, A), ("none", 0, 1, 1, 1, 1, 2, O4, A), ("none", 0, 1, 2, 1, 1, 2, O4, A),
          # composed filters: every source x every previous content (per slot: an atom of any kind constraining everything, or nothing;
          # sequences: 0..Depth entries, same / reordered / other names)
-         ("chain", 0, 2, 1, 2, 1, 0, O2, F), ("chain", 1, 1, 2, 2, 2, 1, O2, F),
+         ("chain", 0, 2, 1, 2, 1, 0, O2, F), ("chain", 1, 1, 2, 2, 2, 0, O2, F),
          ("seq", 2, 2, 1, 2, 1, 0, O2, F), ("seq", 2, 2, 2, 1, 2, 1, O2, F),
          ("tuple", 0, 1, 2, 1, 1, 0, O2, F), ("power", 0, 2, 1, 1, 1, 0, O2, F)]
     if tier == "thorough":
-        c += [("unit", 4, 4, 1, 1, 2, 2, O4, A), ("slip", 3, 3, 3, 1, 1, 2, O4, A), ("mean", 0, 3, 3, 1, 2, 2, O4, A),
+        c += [("unit", 4, 4, 1, 1, 2, 2, O4, A), ("slip", 3, 3, 2, 1, 1, 2, O4, A), ("slip", 3, 3, 3, 1, 1, 0, O4, A), ("chain", 1, 1, 2, 2, 2, 1, O4, A), ("mean", 0, 3, 3, 1, 2, 2, O4, A),
               ("chain", 2, 2, 2, 2, 1, 1, O4, A), ("chain", 0, 2, 1, 3, 2, 0, O2, F), ("chain", 1, 1, 3, 2, 1, 0, O4, A),
               ("seq", 0, 1, 1, 2, 2, 1, O4, A), ("seq", 1, 1, 2, 2, 1, 0, O2, F), ("seq", 2, 2, 1, 3, 2, 0, ["sol"], ["clone_into_deep", "convert_same"]),
               ("seq", 1, 1, 3, 1, 1, 1, O4, A),
@@ -193,20 +193,24 @@ def mat_configs(tier):
     return c
 
 
+# C06_PARTS (development aid, e.g. C06_PARTS=into,global): run only the listed parts lafem | into | global; recorded in the evidence
+PARTS = [x for x in os.environ.get("C06_PARTS", "lafem,into,global").split(",") if x]
+
+
 def generate(chk, tier):
     import concurrent.futures as cf
     jobs = []
-    for k, a in enumerate(vec_configs(tier)):
+    for k, a in enumerate(vec_configs(tier) if "lafem" in PARTS else []):
         name = "gen_FiltersLife_%d_%d.cfg" % (os.getpid(), k)
         with open(os.path.join(vlib.SPEC, name), "w") as f:
             f.write(vec_cfg(*a))
         jobs.append(("FiltersLife", name, "vec %s n%d..%d bs%d depth%d pal%d" % a[:6] + (" lifecycle" if len(a) > 6 and a[6] else "")))
-    for k, a in enumerate(mat_configs(tier)):
+    for k, a in enumerate(mat_configs(tier) if "lafem" in PARTS else []):
         name = "gen_FiltersMat_%d_%d.cfg" % (os.getpid(), k)
         with open(os.path.join(vlib.SPEC, name), "w") as f:
             f.write(mat_cfg(*a))
         jobs.append(("FiltersMat", name, "mat %s %dx%d sq=%s b%dx%d %s pal%d" % a))
-    for k, a in enumerate(into_configs(tier)):
+    for k, a in enumerate(into_configs(tier) if "into" in PARTS else []):
         name = "gen_FiltersInto_%d_%d.cfg" % (os.getpid(), k)
         with open(os.path.join(vlib.SPEC, name), "w") as f:
             f.write(into_cfg(*a))
@@ -214,7 +218,7 @@ def generate(chk, tier):
     cases = []
     try:
         with cf.ThreadPoolExecutor(max_workers=min(len(jobs), 8)) as ex:
-            futs = [(ex.submit(vlib.tlc, mod, cfg, timeout=1700, xmx="3g"), nm) for mod, cfg, nm in jobs]
+            futs = [(ex.submit(vlib.tlc, mod, cfg, timeout=1700 if tier == "quick" else 5000, xmx="3g"), nm) for mod, cfg, nm in jobs]
             for f, nm in futs:
                 r = f.result()
                 chk.add_tlc(r, nm)
@@ -300,10 +304,11 @@ def builds():
     """the two std replayers and the MPI replayer (separate build directories: side by side)"""
     import concurrent.futures as cf
     with cf.ThreadPoolExecutor(max_workers=2) as ex:
-        f1 = ex.submit(vlib.build, ["c06_filters", "c06_into"])
-        f2 = ex.submit(vlib.build, ["c06_gfilter"], "mpi")
-        (b_f, b_i), (b_g,) = f1.result(), f2.result()
-    return b_f, b_i, b_g
+        std = [t for t, part in (("c06_filters", "lafem"), ("c06_into", "into")) if part in PARTS]
+        f1 = ex.submit(vlib.build, std)
+        f2 = ex.submit(vlib.build, ["c06_gfilter"] if "global" in PARTS else [], "mpi")
+        bs, bg = dict(zip(std, f1.result())), f2.result()
+    return bs.get("c06_filters"), bs.get("c06_into"), (bg[0] if bg else None)
 
 
 def run(chk):
@@ -313,19 +318,19 @@ def run(chk):
     chk.extra["capabilities_of_tree"] = list(CAPS)
     # the global part (TLC generation in its own small pool, MPI replays) runs beside the LAFEM part
     with cf.ThreadPoolExecutor(max_workers=1) as gpart, cf.ThreadPoolExecutor(max_workers=3) as gex:
-        gfut = gpart.submit(c06_global.run, chk, b_g, gex)
-        allc = expand(generate(chk, chk.tier))
-        if not allc:
-            raise vlib.MachineryError("generator produced no cases")
+        gfut = gpart.submit(c06_global.run, chk, b_g, gex) if "global" in PARTS else None
+        allc = expand(generate(chk, chk.tier)) if ("lafem" in PARTS or "into" in PARTS) else []
         cases = [c for c in allc if c.get("part") != "into"]
         into = [c for c in allc if c.get("part") == "into"]
-        if not cases or not into:
+        if ("lafem" in PARTS and not cases) or ("into" in PARTS and not into):
             raise vlib.MachineryError("generator produced no cases for one of the parts")
         res = vlib.run_cases(b_f, cases, tmo=20)
         vlib.judge_results(chk, cases, res, sig, keyf=key, harness="c06_filters", nontrivial=nontrivial)
         res = vlib.run_cases(b_i, into, tmo=20)
         vlib.judge_results(chk, into, res, sig, keyf=key, harness="c06_into", nontrivial=nontrivial)
-        nglobal = gfut.result()
+        nglobal = gfut.result() if gfut else 0
+    if sorted(PARTS) != ["global", "into", "lafem"]:
+        chk.extra["PARTIAL_RUN_parts"] = PARTS
     chk.extra["into_behaviours"] = len(into)
     chk.extra["into_behaviours_previous_content_differs"] = sum(1 for c in into if c["differs"])
     chk.extra["into_pairs"] = len(set(json.dumps([c["t0"], c["nt"], c["f"], c["n"]], sort_keys=True) for c in into))
@@ -360,7 +365,7 @@ def run(chk):
     chk.assumptions = ["inputs lie in the exact (dyadic) domain: integer vectors, normals with |nu|^2 in {1,2,4}, mean volumes p.d a power of two; "
                        "rounding behaviour for general normals/weights is not explored (DESIGN.md sec. 7 residue)",
                        "mean filters are built with volume = p.d (the documented meaning of the volume argument)",
-                       "global filters: sharer counts that are not powers of two (1/3, 1/5, 1/6 frequencies) are compared within 64 eps * magnitude "
+                       "global filters: sharer counts that are not powers of two (1/3, 1/5, 1/6 frequencies) are compared within 512 eps * magnitude "
                        "(magnitude from the specification), all others bit-exactly",
                        "constrained matrix rows without a stored diagonal entry are required to become null rows and are excluded from the solve guarantee (DESIGN.md decision rule)"]
 
